@@ -286,7 +286,7 @@ def c14_4(ctx: Ctx):
     ctx.check("except ValueError" in t, vf, vf.node, "only ValueError is converted", "exception conversion changed")
 
 
-@rule("C14.5", ["C14"], "encode and decode walk the same fields in the same order; byte counts add up", 7)
+@rule("C14.5", ["C14", "C15"], "encode and decode walk the same fields in the same order; byte counts add up", 7)
 def c14_5(ctx: Ctx):
     repo = ctx.repo
     P = "dwarf._encodable._OpcodeEncodable."
